@@ -390,7 +390,7 @@ fn de_test(t: &mut Toks) -> Test {
         "Perm" => {
             let k = t.next();
             let bits: u32 = t.num();
-            let p = Permission(Mode::from_bits_truncate(bits));
+            let p = Permission(Mode::from_bits_retain(bits));      // every bit of the u32, as the public API allows
             match k {
                 "AtLeast" => Test::Perm(PermCheck::AtLeast(p)),
                 "Any" => Test::Perm(PermCheck::Any(p)),
@@ -618,9 +618,18 @@ fn ser_iomap(m: &Option<std::collections::HashMap<u32, Target>>) -> String {
     }
 }
 
+/// a borrowed slice that starts at an odd offset inside a larger buffer (callers of a library do
+/// pass such slices; an owned String is always aligned)
+fn unaligned(text: &str) -> (String, usize) {
+    let k = 1 + text.len() % 7;
+    let mut padded = "#".repeat(k);
+    padded.push_str(text);
+    (padded, k)
+}
+
 fn obs_parse(input: &str) -> (String, Option<(RunOptions, Expression)>) {
-    let i = input.to_string();
-    match catch_unwind(move || parse(&i)) {
+    let (padded, k) = unaligned(input);
+    match catch_unwind(move || parse(&padded[k..])) {
         Err(_) => ("PANIC".into(), None),
         Ok(Err(e)) => {
             let msg = catch_unwind(AssertUnwindSafe(|| e.to_string()));
@@ -630,8 +639,16 @@ fn obs_parse(input: &str) -> (String, Option<(RunOptions, Expression)>) {
             }
         }
         Ok(Ok((o, e))) => {
+            // equal inputs give EQUAL results: a second parse of the same text and a clone must compare
+            // equal under the library's own PartialEq
+            let again = catch_unwind(|| parse(input).ok());
+            let same = match &again {
+                Ok(Some((o2, e2))) => o2.depth == o.depth && o2.threads == o.threads && *e2 == e && e.clone() == e,
+                _ => false,
+            };
             let mut s = format!(
-                "OK {} {} ",
+                "{}OK {} {} ",
+                if same { "" } else { "NEQ-SELF " },
                 if o.depth { 1 } else { 0 },
                 o.threads.map(|t| t.to_string()).unwrap_or("-".into())
             );
@@ -656,7 +673,8 @@ fn obs_compile(e: &Expression, o: &RunOptions, mdts: &[String], with_map_between
                 let m0 = ser_iomap(&c.io_map());
                 s.push_str(&format!("COK {}", m0));
                 for mdt in mdts {
-                    let text = c.scheme(mdt);
+                    let (padded, k) = unaligned(mdt);
+                    let text = c.scheme(&padded[k..]);
                     s.push_str(&format!(" | {}", esc(&text)));
                     if with_map_between {
                         let m = ser_iomap(&c.io_map());
